@@ -259,6 +259,7 @@ package otr3
 //@   ensures [C14.recv.table] result0 == beforeCtx || (result0.currentIndex == 1 && result0.currentLen >= 1) || (result0.currentIndex == beforeCtx.currentIndex + 1 && result0.currentLen == beforeCtx.currentLen && result0.currentIndex <= result0.currentLen && len(result0.frag) >= len(beforeCtx.frag)) || (result0.currentIndex == 0 && result0.currentLen == 0 && result0.frag === nil)
 //@   ensures [C14.recv.inv] beforeCtx.currentIndex <= beforeCtx.currentLen ==> result0.currentIndex <= result0.currentLen
 //@   ensures [C16.frag.sticky] old(c.version) != nil ==> c.version == old(c.version)
+//@   ensures [C16.key.nonnil.frag] old(c.ourCurrentKey) != nil ==> c.ourCurrentKey != nil
 //@   ensures [C19.frag.noinject] !(result0 == beforeCtx) ==> c.injections.messages === old(c.injections.messages)
 //@   ensures nonglobal(result0.frag)
 
@@ -277,6 +278,7 @@ package otr3
 //@ func (*Conversation).setKeyMatchingVersion
 //@   requires c != nil && c.version != nil && keysNonNil(c)
 //@   modifies c.ourCurrentKey
+//@   ensures [C16.key.nonnil.set] old(c.ourCurrentKey) != nil ==> c.ourCurrentKey != nil
 
 //@ func (*Conversation).commitToVersionFrom
 //@   requires c != nil && keysNonNil(c)
@@ -287,6 +289,7 @@ package otr3
 //@   ensures [C16.commit.none] (old(c.version) == nil && !(hasPol(c, allowV3) && (versions & 8) != 0) && !(hasPol(c, allowV2) && (versions & 4) != 0)) ==> (result == errUnsupportedOTRVersion && c.version == nil && c.ourCurrentKey == old(c.ourCurrentKey))
 //@   ensures [C16.commit.policy] (old(c.version) == nil && c.version != nil) ==> ((typeis(c.version, otrV3) && hasPol(c, allowV3)) || (typeis(c.version, otrV2) && hasPol(c, allowV2)))
 //@   ensures result == nil ==> c.version != nil
+//@   ensures [C16.key.nonnil.commit] old(c.ourCurrentKey) != nil ==> c.ourCurrentKey != nil
 
 //@ func (*Conversation).checkVersion
 //@   requires c != nil && keysNonNil(c)
@@ -295,6 +298,7 @@ package otr3
 //@   ensures [C16.check.sticky,C06.version.frame] old(c.version) != nil ==> (c.version == old(c.version) && c.ourCurrentKey == old(c.ourCurrentKey))
 //@   ensures [C16.check.policy] (old(c.version) == nil && c.version != nil) ==> ((typeis(c.version, otrV3) && hasPol(c, allowV3)) || (typeis(c.version, otrV2) && hasPol(c, allowV2)))
 //@   ensures [C16.check.short] len(message) < 2 ==> (result == errInvalidOTRMessage && c.version == old(c.version))
+//@   ensures [C16.key.nonnil.check] old(c.ourCurrentKey) != nil ==> c.ourCurrentKey != nil
 
 //@ func newOtrVersion
 //@   pure
@@ -504,20 +508,23 @@ package otr3
 //@ loop (plainDataMsg).serialize #0
 //@   invariant (sbaseSame(out, c.message) || fresh(out)) && len(out) >= len(c.message) + 1
 
+//@ define tlvsOK(ts) = forall i in 0..len(ts) :: int(ts[i].tlvLength) <= len(ts[i].tlvValue)
 //@ func (*plainDataMsg).decrypt
-//@   requires c != nil && macok(nil)
+//@   requires c != nil && macok(nil) && tlvsOK(c.tlvs)
 //@   modifies c.message, c.tlvs, elems(c.tlvs), elems(src)
+//@   ensures [C13.tlv.wellformed.decrypt] tlvsOK(c.tlvs)
 //@   ensures [C02.decrypt.inplace] result == nil ==> (c.message === nil || within(c.message, src))
 
 //@ func (*plainDataMsg).deserialize
-//@   requires c != nil
+//@   requires c != nil && tlvsOK(c.tlvs)
 //@   modifies c.message, c.tlvs, elems(c.tlvs)
+//@   ensures [C13.tlv.wellformed.parse] tlvsOK(c.tlvs)
 //@   ensures [C17.plain.parse] c.message === nil || within(c.message, msg)
 //@ loop (*plainDataMsg).deserialize #0
 //@   invariant 0 <= nulPos && nulPos <= len(msg)
 //@   decreases len(msg) - nulPos
 //@ loop (*plainDataMsg).deserialize #1
-//@   invariant c != nil && nonglobal(tlvsBytes)
+//@   invariant c != nil && nonglobal(tlvsBytes) && tlvsOK(c.tlvs)
 //@   exit [C17.plain.alltlvs,C02.plain.alltlvs] len(tlvsBytes) == 0
 //@   decreases len(tlvsBytes)
 
@@ -1089,6 +1096,9 @@ package otr3
 // ---------------------------------------------------------------------------
 //@ func (*Conversation).processTLVs
 //@   requires [C02.tlv.after.auth,C05.tlv.after.counter] c != nil && macok(nil) && ctrok(nil)
+//@   requires akeInv(c)
+//@   requires [C13.tlv.wellformed] tlvsOK(tlvs)
+//@   ensures [C07.tlv.inv] akeInv(c)
 //@   modifies anything
 //@   modifies seclog(c), msglog(c), smplog(c), kmcWiped(addr(c.keys)), keysWiped(addr(c.keys)), akeWiped(c.ake), akeKeysWiped(c.ake), kmcWiped(addr(c.ake.keys)), keysWiped(addr(c.ake.keys))
 //@   ensures nonglobal(result0)
@@ -1100,7 +1110,9 @@ package otr3
 //@   modifies anything
 
 //@ func (*Conversation).processDataMessageWithRawErrors
-//@   requires convOK(c)
+//@   requires convOK(c) && akeInv(c)
+//@   ensures [C07.data.inv.raw] akeInv(c)
+//@   ensures [C04.data.convok.raw] plain !== nil ==> convOK(c)
 //@   modifies anything
 //@   modifies macok(nil), mackey(nil), ctrok(nil), seclog(c), msglog(c), smplog(c), kmcWiped(addr(c.keys)), keysWiped(addr(c.keys)), akeWiped(c.ake), akeKeysWiped(c.ake), kmcWiped(addr(c.ake.keys)), keysWiped(addr(c.ake.keys))
 //@   ensures [C05.accept.fresh] plain !== nil ==> ctrok(nil)
@@ -1113,7 +1125,9 @@ package otr3
 //@   ensures [C06.data.reject.mackeys,C19.reject.nogrowth] (err != nil && !macok(nil)) ==> c.keys.macKeyHistory.items === old(c.keys.macKeyHistory.items)
 
 //@ func (*Conversation).processDataMessage
-//@   requires convOK(c)
+//@   requires convOK(c) && akeInv(c)
+//@   ensures [C07.data.inv] akeInv(c)
+//@   ensures [C04.data.convok] plain !== nil ==> convOK(c)
 //@   modifies anything
 //@   modifies macok(nil), mackey(nil), ctrok(nil), seclog(c), msglog(c), smplog(c), kmcWiped(addr(c.keys)), keysWiped(addr(c.keys)), akeWiped(c.ake), akeKeysWiped(c.ake), kmcWiped(addr(c.ake.keys)), keysWiped(addr(c.ake.keys))
 //@   ensures [C05.accept.fresh.flag] plain !== nil ==> ctrok(nil)
@@ -1223,11 +1237,13 @@ package otr3
 //@   modifies anything
 //@   modifies msglog(c)
 //@ func (*Conversation).receiveQueryMessage
+//@   ensures [C13.recv.version.query] (result1 == nil && len(result0) > 0) ==> c.version != nil
 //@   preserves [C14.ctx.frame.receiveQueryMessage] c.fragmentationContext.currentIndex, c.fragmentationContext.currentLen, c.fragmentationContext.frag
 //@   requires convOK(c)
 //@   modifies anything
 //@   modifies msglog(c), akeWiped(c.ake), akeKeysWiped(c.ake), kmcWiped(addr(c.ake.keys)), keysWiped(addr(c.ake.keys))
 //@ func (*Conversation).receiveTaggedPlaintext
+//@   ensures [C13.recv.version.tagged] (err == nil && len(toSend) > 0) ==> c.version != nil
 //@   preserves [C14.ctx.frame.receiveTaggedPlaintext] c.fragmentationContext.currentIndex, c.fragmentationContext.currentLen, c.fragmentationContext.frag
 //@   requires convOK(c)
 //@   requires [C13.wstag.present] bhas(bytes(message), bytes(whitespaceTagHeader))
@@ -1239,20 +1255,33 @@ package otr3
 //@   modifies anything
 //@   modifies msglog(c)
 //@   ensures [C16.plain.exact] err == nil && len(plain) == len(message) && (forall i in 0..len(message) :: plain[i] == old(message[i]))
+//@   ensures [C16.plain.noreply] toSend === nil
 //@ func (*Conversation).receiveEncoded
 //@   preserves [C14.ctx.frame.receiveEncoded] c.fragmentationContext.currentIndex, c.fragmentationContext.currentLen, c.fragmentationContext.frag
-//@   requires convOK(c)
+//@   requires convOK(c) && akeInv(c)
 //@   modifies anything
 //@   modifies macok(nil), mackey(nil), ctrok(nil), commitok(nil), akemacok(nil), sigok(nil), seclog(c), msglog(c), smplog(c), kmcWiped(addr(c.keys)), keysWiped(addr(c.keys)), akeWiped(c.ake), akeKeysWiped(c.ake), kmcWiped(addr(c.ake.keys)), keysWiped(addr(c.ake.keys))
-//@   opaque
+//@   ensures [C13.recv.version] (result2 == nil && len(result1) > 0) ==> c.version != nil
+//@   ensures [C07.recv.inv] akeInv(c)
 //@ func (*Conversation).toSendEncoded
 //@   preserves [C14.ctx.frame.tosend] c.fragmentationContext.currentIndex, c.fragmentationContext.currentLen, c.fragmentationContext.frag, c.injections.messages
 //@   requires c != nil && (err == nil && len(toSend) > 0 ==> c.version != nil)
 //@   modifies anything
 //@   ensures result0 === plain && result2 == err
 
+// Receive: the public entry point.  convOK, akeInv, an empty injection queue and "no completed fragment stream
+// left over" are the representation invariants of a Conversation between calls: they are assumed here (type
+// invariant at the API boundary) and the last two are re-established on every return.
+//@ func (*Conversation).Receive
+//@   requires convOK(c) && len(c.injections.messages) == 0 && akeInv(c) && !fragDone(c)
+//@   modifies anything
+//@   modifies macok(nil), mackey(nil), ctrok(nil), commitok(nil), akemacok(nil), sigok(nil), seclog(c), msglog(c), smplog(c), kmcWiped(addr(c.keys)), keysWiped(addr(c.keys)), akeWiped(c.ake), akeKeysWiped(c.ake), kmcWiped(addr(c.ake.keys)), keysWiped(addr(c.ake.keys))
+//@   ensures [C19.receive.flushed] len(c.injections.messages) == 0
+//@   ensures [C14.receive.once] !fragDone(c)
+//@   ensures [C16.receive.disabled] (!old(hasPol(c, allowV2)) && !old(hasPol(c, allowV3))) ==> (err == nil && len(toSend) == 0 && len(plain) == len(m))
 //@ func (*Conversation).receiveUnit
 //@   requires convOK(c) && len(c.injections.messages) == 0
+//@   requires akeInv(c)
 //@   requires [C14.once.pre,C05.frag.once.pre] !fragDone(c)
 //@   modifies anything
 //@   modifies macok(nil), mackey(nil), ctrok(nil), commitok(nil), akemacok(nil), sigok(nil), seclog(c), msglog(c), smplog(c), kmcWiped(addr(c.keys)), keysWiped(addr(c.keys)), akeWiped(c.ake), akeKeysWiped(c.ake), kmcWiped(addr(c.ake.keys)), keysWiped(addr(c.ake.keys))
@@ -1278,6 +1307,7 @@ package otr3
 
 //@ loop (*Conversation).processTLVs #0
 //@   invariant c != nil && nonglobal(retTLVs) && macok(nil) && ctrok(nil)
+//@   invariant akeInv(c)
 //@   exit [C18.tlv.all,C02.tlv.all] rangeindex + 1 >= len(tlvs)
 
 // ---------------------------------------------------------------------------
